@@ -16,6 +16,18 @@ _HIST_ASSUME = [
 ]
 
 PROPS = {
+    "C09": {
+        "level": "exploration",
+        "jobs": [
+            {"run": "^TestC09HistoryStore", "checks": {"quick": 2500, "thorough": 40000}, "shards": {"quick": 1, "thorough": 8}},
+            {"run": "^TestC09(Wire|KnownFinding)", "checks": {"quick": 35, "thorough": 300}, "shards": {"quick": 4, "thorough": 16}},
+        ],
+        "assumptions": [
+            "timeslots handed to the history store are at most 14316557, the largest value UnixToTimeslot can return",
+            "scaled readings stay within 32 signed bits except in a small class that exercises known finding KF-C09-1 (counted as excluded_known / known_findings_hit)",
+            "datagrams with power 0 or 1 are outside the property (the server does not act on them)",
+        ],
+    },
     "C15": {
         "level": "exploration",
         "jobs": [
@@ -128,6 +140,11 @@ PROPS = {
 
 # Texts for MANIFEST.json.
 META = {
+    "C09": {
+        "technique": "stateful property-based testing: history store against a map model; energy-file edit histories with ticks and restarts against a reference of the tick rule, with a UDP sink as observer",
+        "text": "The history store is driven through save/load/reopen sequences with boundary timeslots and values and compared with a map model and the documented file layout. At wire level the energy file evolves by generated edits (append, rewrite, duplicate with another value, reorder, malformed rows, removal) interleaved with granted reporting ticks and client restarts; the exact emissions of every tick are predicted and, over the whole history, all datagrams for a slot with a power the server acts on must be byte-identical and carry the first stored reading. Exploration only.",
+        "note": "Known finding KF-C09-1 (32-bit history) is reproduced on every run by a dedicated input and matched by its specific signature; any other equivocation is a violation.",
+    },
     "C15": {
         "technique": "property-based round-trip and differential testing of every codec against an independently written reference codec; bit-flip sensitivity under three verifiers",
         "text": "Generated values (boundary sets and random bits) for every persisted or transmitted structure are encoded by the repository and by the reference codec and compared byte for byte, decoded back, offered at wrong lengths, concatenated into streams and truncated; signing bytes must carry the ASCII name prefix and differ across values and types; signing must be deterministic and any single-bit change of message, signature or key must fail glow.Verify, libsecp256k1 on independent Keccak, and a math/big verifier; JSON transport is checked in memory and end to end through a live server and its data file. Exploration only.",
